@@ -209,7 +209,7 @@ func (s *Schema) validate(document jschema.Document) error {
 	}
 
 	if empty {
-		return internal.NewValidatorError(errors.ErrEmptyJson, "")
+		return internal.NewValidatorError(errors.ErrEmptyJson, errors.Format(errors.ErrEmptyJson).Error())
 	}
 
 	// check for error: Invalid non-space byte after top-level value
